@@ -847,11 +847,16 @@ def run(chk, replay=None):
         by_class.setdefault(cls, []).append((c, r))
     chk.cov["violations_by_class"] = {k: len(v) for k, v in sorted(by_class.items())}
     single = {k for k in by_class if "+" not in k}
+    known = {k["class"]: k for k in load_known() if k.get("kind") == "finding" and k.get("property") == "C06"}
     for cls, lst in sorted(by_class.items()):
         if "+" in cls and all(p in single for p in cls.split("+")):
             continue                     # explained by classes that are reported on their own
         lst.sort(key=lambda cr: lib_size(cr[0]["lib"]))
         c, r = lst[0]
+        if cls in known and all(cr[1][1] == 1 for cr in lst):
+            # a listed finding: every such case fails exactly as the model of the code as found predicts
+            chk.known(known[cls], strip(c))
+            continue
         chk.violation("from_gds/flatten [%s]: %s gives %s; the property demands %s (%d such cases of %d)" % (
                           cls, describe(c["lib"])[:700], json.dumps(r[2])[:300],
                           "an error or exactly the flattened GDSII geometry with no placement dropped", len(lst), len(cases)),
